@@ -34,12 +34,12 @@ func init() {
 			"a race needs both accesses executed: the race detector sees exactly what the workload performs",
 			"writes that store the value already present are invisible to the snapshot (visible to the race detector only)",
 		},
-		Cases:       func(tier string) int { return pick(tier, 900, 30000) },
-		Run:         c09Run,
-		Binary:      "race",
-		Aux:         c09Aux,
-		Driver:      c09Driver,
-		MinDistinct: func(tier string) int { return pick(tier, 300, 1000) },
+		Cases:         func(tier string) int { return pick(tier, 900, 30000) },
+		Run:           c09Run,
+		Binary:        "race",
+		Aux:           c09Aux,
+		Driver:        c09Driver,
+		MinDistinct:   func(tier string) int { return pick(tier, 300, 1000) },
 		WorkerTimeout: func(tier string) time.Duration { return time.Duration(pick(tier, 20, 120)) * time.Minute },
 	})
 }
@@ -47,18 +47,18 @@ func init() {
 // --- structural snapshot -----------------------------------------------------------
 
 type c09Node struct {
-	ptr      *lisp.LVal
-	typ      lisp.LType
-	str      string
-	i        int
-	f        float64
-	ft       lisp.LFunType
-	quoted   bool
-	sealed   bool
-	src      token.Location
-	hasSrc   bool
-	n, c     int
-	kids     []*lisp.LVal
+	ptr    *lisp.LVal
+	typ    lisp.LType
+	str    string
+	i      int
+	f      float64
+	ft     lisp.LFunType
+	quoted bool
+	sealed bool
+	src    token.Location
+	hasSrc bool
+	n, c   int
+	kids   []*lisp.LVal
 }
 
 func c09Snapshot(roots []*lisp.LVal) []c09Node {
